@@ -96,6 +96,8 @@ class Path:
         self.notes = []
         self.generic_excluded = []
         self.draws = []  # environment draws (rng, eig...) recorded by stand-ins
+        self.roots = {}
+        self.nonneg_hints = []  # Nodes the harness declares to be sums of squares (sign certificates)
         self.counter = {}
 
     # ---- inputs
@@ -206,6 +208,7 @@ class Path:
                     best = Fraction(1, 10**6)
             self.assign[key] = best
         val = Fraction(self.assign[key])
+        self.roots[key] = x
         if val**k != x.v:
             self.exact = False
         if key not in self.known:
@@ -303,6 +306,7 @@ class Explorer:
                           mismatches=0, solver_calls=0, solver_s=0.0, partial_sat=0)
         self.undecided = []
         self.sample_pc = None
+        self._cert_cache = {}
 
     def _check(self, s, *extra):
         t = time.time()
@@ -378,7 +382,43 @@ class Explorer:
         # DFS: deepest alternatives first (popped last-in-first-out)
         work.extend(new)
 
+    def _certified_infeasible(self, p: Path, target):
+        """sign certificates: target is `q < 0` (in some spelling) and q is *identically* equal to a
+        registered sum-of-squares term -> infeasible.  The identity is decided by z3 without the
+        path condition, so a wrong hint proves nothing."""
+        if not p.nonneg_hints:
+            return False
+        t = target
+        negated = False
+        if t.op == "not":
+            t = t.args[0]
+            negated = True
+        q = None
+        if t.op in ("le", "lt") and len(t.args) == 2:
+            a, b = t.args
+            if negated and t.op == "le" and core.is_const(a) and core.cval(a) == 0:
+                q = b  # not(0 <= q)
+            elif not negated and t.op == "lt" and core.is_const(b) and core.cval(b) == 0:
+                q = a  # q < 0
+        if q is None:
+            return False
+        for h in p.nonneg_hints:
+            key = (q.uid, h.uid)
+            r = self._cert_cache.get(key)
+            if r is None:
+                s = z3.Solver()
+                s.set("rlimit", self.rlimit)
+                s.add(to_z3(bnot(cmp("eq", q, h))))
+                r = self._check(s) == z3.unsat
+                self._cert_cache[key] = r
+            if r:
+                self.stats["certificates"] = self.stats.get("certificates", 0) + 1
+                return True
+        return False
+
     def _flip(self, p: Path, s, pclen, target):
+        if self._certified_infeasible(p, target):
+            return "unsat"
         zt = to_z3(target)
         s.push()
         s.add(zt)
